@@ -141,11 +141,7 @@ func Sub(fs FS, dir string) (FS, error) {
 	if fs, ok := fs.(SubFS); ok {
 		return fs.Sub(dir)
 	}
-	if fs, ok := fs.(MountFS); ok {
-		mountFS, subPath := fs.Mount(dir)
-		fs, err := Sub(mountFS, subPath)
-		return fs, stripErrPathPrefix(err, dir, subPath)
-	}
+	// a MountFS is wrapped as a whole: a view taken inside the file system mounted at dir would miss the mounts below dir
 	return newSubFS(fs, dir)
 }
 
